@@ -1129,3 +1129,31 @@ func inLoopWith(a, b ssa.Instruction) *loopInfo {
 	}
 	return nil
 }
+
+// derivesFrom reports whether v is the named load, possibly divided by constants and merged by phis.
+func (p *Program) derivesFrom(v ssa.Value, leaf string, depth int) bool {
+	if depth > 6 {
+		return false
+	}
+	v = p.resolve(v)
+	switch x := v.(type) {
+	case *ssa.Phi:
+		for _, e := range x.Edges {
+			if !p.derivesFrom(e, leaf, depth+1) {
+				return false
+			}
+		}
+		return true
+	case *ssa.BinOp:
+		if x.Op != token.QUO {
+			return false
+		}
+		if _, ok := constInt(p.resolve(x.Y)); !ok {
+			return false
+		}
+		return p.derivesFrom(x.X, leaf, depth+1)
+	case *ssa.UnOp:
+		return p.expr(x) == leaf
+	}
+	return false
+}
